@@ -400,6 +400,17 @@ Proof.
     apply U; [exact Hk|]. intros ->. apply Ne. symmetry. exact Ek.
 Qed.
 
+(* the same on the names returned, for the three reflected profile sets *)
+Lemma key_transpose_names_lemma : forall s ns j i,
+  unique_max (key_lt (profile_set s) (ky_hist ns)) i ->
+  estimate_key (profile_set s) ns = nth (Z.to_nat i) key_names "?"%string /\
+  estimate_key (profile_set s) (transpose j ns) = nth (Z.to_nat (rot_key j i)) key_names "?"%string.
+Proof.
+  intros s ns j i U. unfold estimate_key.
+  destruct (key_transpose_equivariant_lemma (profile_set s) ns j i (circulant_rows_lemma s) U) as [E1 E2].
+  rewrite E1, E2. split; reflexivity.
+Qed.
+
 (* the hypotheses are satisfiable: a C major triad is estimated as C, a third higher as E *)
 Example key_example :
   estimate_key key_matrix_kk [(60, 4); (64, 2); (67, 2); (72, 4)] = "C"%string /\
